@@ -66,6 +66,7 @@ type MapV struct {
 type ChanV struct {
 	id    int
 	queue []Value
+	vcs   []vclock
 	sends int
 	recvs int
 }
